@@ -990,8 +990,11 @@ class Series(ContainerOperand):
             # choose a fill value that will not force a type coercion
             fill_value = dtype_to_fill_value(value_dtype)
             # find targets that are NaN in self and have labels in value; otherwise, might fill values after reindexing, and end up filling a fill_value rather than keeping original (na) value
-            labels_common = intersect1d(self.index.values[sel], value.index.values)
-            sel = self.index.isin(labels_common)
+            if self._index.depth == 1:
+                labels_common = intersect1d(self.index.values[sel], value.index.values)
+                sel = self.index.isin(labels_common)
+            else: # hierarchical labels are 2D values: match them as tuples
+                sel = sel & self._index.isin(value.index)
             if not np.any(sel): # avoid copying, retyping
                 return self
 
